@@ -596,7 +596,7 @@ class TRS:
 
         # Enforce lowercase to match pyTRS standard.
         trs = str(trs).lower()
-        mo = TRS._TRS_UNPACKER_REGEX.search(trs)
+        mo = TRS._TRS_UNPACKER_REGEX.fullmatch(trs)
         if not mo:
             return dct
 
